@@ -20,6 +20,7 @@ from fractions import Fraction
 
 import numpy as np
 import pytz
+import zoneinfo
 
 from acnportal.acnsim.events import acndata_events as AE
 from acnportal.acnsim.events.stochastic_events import StochasticEvents
@@ -191,6 +192,7 @@ def run_doc(item, only=None):
     b = bounds(tier, 0)
     zone, day, period = item["zone"], tuple(item["day"]), item["period"]
     tz = pytz.timezone(zone)
+    ztz = zoneinfo.ZoneInfo(zone)
     inst = doc_instants(zone, day, period, tier)
     viol, stats = [], {"n": 0, "nt": set(), "out": set()}
 
@@ -198,7 +200,7 @@ def run_doc(item, only=None):
         if len(viol) < 40:
             viol.append((sig, what, o, e, ctx))
 
-    starts = [inst[0] - timedelta(seconds=1), inst[0], inst[0] - timedelta(hours=7, minutes=3)]
+    starts = [inst[0] - timedelta(seconds=1), inst[0], inst[0] - timedelta(hours=7, minutes=3), inst[0] - timedelta(days=170, minutes=11)]
     pairs = [(c, dd) for c in inst for dd in inst if dd >= c]
     # keep the pair lattice complete but bounded: all pairs whose indices differ by a small set of gaps
     idx = {t: i for i, t in enumerate(inst)}
@@ -210,8 +212,11 @@ def run_doc(item, only=None):
     for ci, (c, dd) in enumerate(pairs):
         e = energies[ci % len(energies)]  # energies rotate over the pair lattice; every energy meets every menu below
         for ei, e2 in enumerate(energies if ci % 7 == 0 else [e]):
-            d = {"connectionTime": c.astimezone(tz), "disconnectTime": dd.astimezone(tz), "kWhDelivered": e2, "sessionID": "s-%d" % ci, "spaceID": "CA-%d" % (ci % 5)}
-            start = starts[(ci + ei) % len(starts)]
+            # aware datetimes from two tz implementations: pytz (one tzinfo object per offset) and zoneinfo (one
+            # tzinfo object for the whole zone, its offset depends on the instant)
+            tzi = tz if ci % 2 == 0 else ztz
+            d = {"connectionTime": c.astimezone(tzi), "disconnectTime": dd.astimezone(tzi), "kWhDelivered": e2, "sessionID": "s-%d" % ci, "spaceID": "CA-%d" % (ci % 5)}
+            start = starts[(ci + ei) % len(starts)].astimezone(tzi)
             for pmax, max_len, ff, bpk in menus:
                 ctx = {"zone": zone, "day": list(day), "period": period, "c": unix(c), "d": unix(dd), "e": e2, "start": unix(start), "pmax": pmax, "max_len": max_len, "ff": ff, "bp": bpk}
                 if only is not None and only != ctx:
@@ -416,20 +421,32 @@ def run_sample(item, only=None):
                 stats["nt"].add(("sample", period, a, du, en, pmax, max_len, ff, bpk))
     # ---- generate_events, multi-day, owned sample() ----------------------------------
     if only is None or only.get("gen"):
-        day_rows = [[a, du, 5.0 + i] for i, (a, du) in enumerate(rows[:6])]
-        gen = Scripted([day_rows, day_rows[::-1]])
-        with warnings.catch_warnings():
-            warnings.simplefilter("ignore")
-            q = gen.generate_events([3, 0, 2], period, V, 6.656)
-        got = sorted((ts, e.ev.arrival, e.ev.departure, e.ev.requested_energy) for ts, e in q._queue)
-        exp = []
-        for dnum, n, src in ((0, 3, day_rows), (2, 2, day_rows[::-1])):
-            for a, du, en in src[:n]:
-                aa = a + 24 * dnum
-                exp.append((math.floor(Fraction(aa) * pph), math.floor(Fraction(aa) * pph), math.floor(Fraction(aa + du) * pph), en))
-        stats["n"] += 1
-        if got != sorted(exp):
-            rep("sample:generate_events", "multi-day generate_events queue %s, expected %s" % (got, sorted(exp)), got, sorted(exp), {"gen": True, "period": period})
+        for gperiod in (period, 7, 11):  # 7 and 11 minutes do not divide a day
+            gpph = Fraction(60) / Fraction(gperiod)
+            fpph = 60 / gperiod
+            day_rows = []
+            for i, (a, du) in enumerate([(0.26, 1.3), (6.5, 8.0), (8.3, 6.05), (10.0, 3.0), (13.77, 0.6), (23.9, 2.2)] if gperiod != period else rows[:6]):
+                day_rows.append([a, du, 5.0 + i])
+            days = [3, 0, 2, 1]
+            exp, ok = [], True
+            for dnum, n, src in ((0, 3, day_rows), (2, 2, day_rows[::-1]), (3, 1, day_rows)):
+                for a, du, en in src[:n]:
+                    aa = a + 24 * dnum
+                    for x in (aa, aa + du):  # guard band: the floor of the float product must be unambiguous
+                        fr = Fraction(x) * Fraction(fpph) - math.floor(Fraction(x) * Fraction(fpph))
+                        if fr < Fraction(1, 10**6) or 1 - fr < Fraction(1, 10**6):
+                            ok = ok and fr == 0 and gperiod == period
+                    exp.append((math.floor(Fraction(aa) * Fraction(fpph)), math.floor(Fraction(aa) * Fraction(fpph)), math.floor(Fraction(aa + du) * Fraction(fpph)), en))
+            if not ok and gperiod != period:
+                continue
+            gen = Scripted([day_rows, day_rows[::-1], day_rows])
+            with warnings.catch_warnings():
+                warnings.simplefilter("ignore")
+                q = gen.generate_events(days, gperiod, V, 6.656)
+            got = sorted((ts, e.ev.arrival, e.ev.departure, e.ev.requested_energy) for ts, e in q._queue)
+            stats["n"] += 1
+            if got != sorted(exp):
+                rep("sample:generate_events", "multi-day generate_events (period %r min) queue %s, expected %s" % (gperiod, got, sorted(exp)), got, sorted(exp), {"gen": True, "period": period})
     return viol, stats
 
 
